@@ -25,9 +25,11 @@ import zlib
 import framework as fw
 
 
-def free_port():
+def free_port(ip):
+    """a free port on `ip`, a loopback address private to this process (fw.loopback): nobody else binds it between this
+    probe and the daemon's own Listen (the checks may run in parallel; on 127.0.0.1 the port could go to another check)"""
     s = socket.socket()
-    s.bind(("127.0.0.1", 0))
+    s.bind((ip, 0))
     p = s.getsockname()[1]
     s.close()
     return p
@@ -134,8 +136,8 @@ def glued_to_torn_tail(body, before, after):
     return None
 
 
-def owed(http_port):
-    st = json.loads(http("http://127.0.0.1:%d/stats?format=json&topic=t" % http_port))
+def owed(http_addr):
+    st = json.loads(http("http://%s/stats?format=json&topic=t" % http_addr))
     for t in st.get("topics", []):
         for c in t.get("channels", []):
             if c["channel_name"] == "nsq_to_file":
@@ -292,11 +294,13 @@ def run(ctx, rounds):
         root = os.path.join(ctx.work, "e2e_%d" % rnd)
         for d in ("data", "o", "w"):
             os.makedirs(os.path.join(root, d), exist_ok=True)
-        tcp, hp = free_port(), free_port()
+        ip = fw.loopback()
+        tcp, hp = free_port(ip), free_port(ip)
+        hp = "%s:%d" % (ip, hp)      # the daemon's HTTP address
         gz = rng.below(3) == 0
         workdir = rng.below(2) == 0
         stop = ["kill", "term", "hup-term", "kill"][rng.below(4)]
-        opts = ["--topic", "t", "--nsqd-tcp-address", "127.0.0.1:%d" % tcp, "--output-dir", os.path.join(root, "o"),
+        opts = ["--topic", "t", "--nsqd-tcp-address", "%s:%d" % (ip, tcp), "--output-dir", os.path.join(root, "o"),
                 "--sync-interval", ["100ms", "300ms", "1s"][rng.below(3)], "--max-in-flight", str([1, 7, 50, 200][rng.below(4)]),
                 "--host-identifier", "h", "--datetime-format", ["%Y-%m-%d_%H", "%H%M%S"][rng.below(2)]]
         if gz:
@@ -307,19 +311,19 @@ def run(ctx, rounds):
             opts += ["--rotate-size", str(200 + rng.below(3000))]
         if rng.below(3) == 0:
             opts += ["--rotate-interval", "1s"]
-        nsqd = subprocess.Popen([os.path.join(bindir, "nsqd"), "--tcp-address", "127.0.0.1:%d" % tcp, "--http-address",
-                                 "127.0.0.1:%d" % hp, "--data-path", os.path.join(root, "data"), "--mem-queue-size", "50",
+        nsqd = subprocess.Popen([os.path.join(bindir, "nsqd"), "--tcp-address", "%s:%d" % (ip, tcp), "--http-address",
+                                 hp, "--data-path", os.path.join(root, "data"), "--mem-queue-size", "50",
                                  "--msg-timeout", "3s"], stdout=subprocess.DEVNULL, stderr=subprocess.DEVNULL)
         tool = None
         try:
             for _ in range(100):
                 try:
-                    http("http://127.0.0.1:%d/ping" % hp, timeout=1)
+                    http("http://%s/ping" % hp, timeout=1)
                     break
                 except Exception:
                     time.sleep(0.05)
-            http("http://127.0.0.1:%d/topic/create?topic=t" % hp, data=b"")
-            http("http://127.0.0.1:%d/channel/create?topic=t&channel=nsq_to_file" % hp, data=b"")
+            http("http://%s/topic/create?topic=t" % hp, data=b"")
+            http("http://%s/channel/create?topic=t&channel=nsq_to_file" % hp, data=b"")
             bodies = []
 
             def publish(k):
@@ -328,7 +332,7 @@ def run(ctx, rounds):
                     b = ("e2e-%d-%d-%016x" % (rnd, len(bodies), rng.next())).encode() + b"x" * rng.below(60)
                     bodies.append(b)
                     batch.append(b)
-                http("http://127.0.0.1:%d/mpub?topic=t" % hp, data=b"\n".join(batch))
+                http("http://%s/mpub?topic=t" % hp, data=b"\n".join(batch))
 
             publish(150 + rng.below(300))
             strace_log = os.path.join(root, "strace.txt")
